@@ -318,14 +318,53 @@ func c04Parse(in Fields) (string, []c04Op) {
 
 func c04Exec(in Fields) Fields {
 	_, ops := c04Parse(in)
+	if c04HungCases >= 3 {
+		return F("notrun")
+	}
 	st := &c04State{
 		regs: map[int]*c04RegRec{}, rems: map[int]client.Remover{}, used: map[int]bool{},
 		scripts: map[[2]int][]c04Op{}, fired: map[[2]int]bool{},
 		counts: map[c04Key]map[int]int{}, first: map[c04Key]int64{}, touched: map[c04Key]bool{}, info: map[int][2]string{},
-		signal: make(chan struct{}, 1),
+		signal: make(chan struct{}, 1), flights: map[int64]c04Flight{},
 	}
 	st.ws = NewWireSession(nil)
-	defer st.ws.Close()
+	// a hung client is abandoned (leaked): closing it could block as well
+	defer func() {
+		if st.hung == "" {
+			st.ws.Close()
+		}
+	}()
+	giveUp := func(what string) Fields {
+		fl := st.inFlight()
+		if fl == "" {
+			fl = "none"
+		}
+		st.hung = what + " within " + c04Budget.String() + "; registry calls in flight: " + fl
+		c04HungCases++
+		return F("hung", st.hung)
+	}
+	// a registry call of the main goroutine, under the watchdog
+	guarded := func(o c04Op) bool {
+		done := make(chan struct{})
+		go func() { st.perform(o, "the main goroutine"); close(done) }()
+		select {
+		case <-done:
+			return true
+		case <-time.After(c04Budget):
+			return false
+		}
+	}
+	var wg sync.WaitGroup
+	joined := func() bool {
+		done := make(chan struct{})
+		go func() { wg.Wait(); close(done) }()
+		select {
+		case <-done:
+			return true
+		case <-time.After(c04Budget):
+			return false
+		}
+	}
 
 	// pre-load handler scripts; collect the bodies of free goroutines
 	type gor struct{ ops []c04Op }
@@ -358,26 +397,27 @@ func c04Exec(in Fields) Fields {
 
 	type snapRec struct{ lo, hi int64 }
 	snaps := map[c04Key]*snapRec{}
-	var wg sync.WaitGroup
 	serial := 0
 	for _, i := range top {
 		o := ops[i]
 		switch o.op {
-		case "H", "HF", "B":
-			st.perform(o)
-		case "R":
-			st.perform(o)
+		case "H", "HF", "B", "R":
+			if !guarded(o) {
+				return giveUp(fmt.Sprintf("%s by the main goroutine (after event %d) did not return", o.op, serial))
+			}
 		case "G":
 			g := gors[i]
 			wg.Add(1)
 			go func() {
 				defer wg.Done()
 				for _, x := range g.ops {
-					st.perform(x)
+					st.perform(x, fmt.Sprintf("free goroutine %d", o.a))
 				}
 			}()
 		case "J":
-			wg.Wait()
+			if !joined() {
+				return giveUp("the free goroutines did not finish")
+			}
 		case "E":
 			serial++
 			kf, kb := c04Key{0, serial}, c04Key{1, serial}
@@ -401,7 +441,9 @@ func c04Exec(in Fields) Fields {
 			}
 			// the PONG proves the internal PING handler ran, hence (runLoop is sequential) that the
 			// foreground dispatch of the event line has completed
-			st.waitWire(fmt.Sprintf("PONG :m%d\r\n", serial), 5*time.Second)
+			if !st.waitWire(fmt.Sprintf("PONG :m%d\r\n", serial), c04Budget) {
+				return giveUp(fmt.Sprintf("event %d (%s): the foreground dispatch did not complete (no PONG)", serial, o.name))
+			}
 			syncStamp := st.clock.Add(1)
 			// background: pinned by the sentinel (any background handler entry proves the snapshot)
 			bgCount := func() int {
@@ -429,7 +471,9 @@ func c04Exec(in Fields) Fields {
 					st.waitFor(1800*time.Millisecond, func() bool { return quiet() && bgCount() >= expect })
 				}
 			}
-			st.waitFor(2*time.Second, quiet)
+			if !st.waitHard(c04Budget, quiet) {
+				return giveUp(fmt.Sprintf("event %d (%s): a handler did not return", serial, o.name))
+			}
 			st.mu.Lock()
 			if f, ok := st.first[kf]; ok && f < syncStamp {
 				snaps[kf].hi = f
@@ -445,8 +489,12 @@ func c04Exec(in Fields) Fields {
 			st.mu.Unlock()
 		}
 	}
-	wg.Wait()
-	st.waitFor(2*time.Second, func() bool { return st.started.Load() == st.done.Load() })
+	if !joined() {
+		return giveUp("the free goroutines did not finish")
+	}
+	if !st.waitHard(c04Budget, func() bool { return st.started.Load() == st.done.Load() }) {
+		return giveUp("a handler did not return by the end of the history")
+	}
 	time.Sleep(200 * time.Microsecond)
 
 	// ---- observation ----
@@ -770,12 +818,18 @@ func c04Gen(r *Rand, tier string, scale int, emit func(Fields)) {
 	if scale == 0 {
 		scale = 300
 	}
-	for i := 0; i < scale; i++ {
-		emit(c04GenOne(r.Fork(), i%4 == 3))
+	// after 3 hung cases the run stops executing (c04Exec answers "notrun"): stop generating too
+	live := func(in Fields) {
+		if c04HungCases < 3 {
+			emit(in)
+		}
+	}
+	for i := 0; i < scale && c04HungCases < 3; i++ {
+		live(c04GenOne(r.Fork(), i%4 == 3))
 	}
 	if tier == "thorough" {
-		c04Exhaustive(5, emit)
+		c04Exhaustive(5, live)
 	} else {
-		c04Exhaustive(3, emit)
+		c04Exhaustive(3, live)
 	}
 }
